@@ -79,7 +79,11 @@ TokOp(name) == [tk |-> name]
 LexInit(s) == [s |-> s, p |-> 1, toks |-> <<>>, opts |-> OptsInit, leading |-> TRUE,
                mayrej |-> FALSE, phase |-> "run", err |-> [why |-> "none"]]
 
+\* "nope" is the implementation's placeholder spelling for its only positional option; it is not
+\* part of find's vocabulary and no property says what it means: not judged.
+WNope == Cp("nope")
 Murky(w) ==
+  \/ w = WNope
   \/ (Len(w) > 1 /\ w[1] \in {cBANG, cCOMMA})
   \/ (\E i \in 2..Len(w) : w[i] = cLP)
   \/ w[1] \in {cSQ, cDQ}
@@ -122,7 +126,9 @@ LexStep(st) ==
                            !.mayrej = st.mayrej \/ dis,
                            !.toks = Append(st.toks, TokPrim(TrueNode))]
         ELSE
-           [st EXCEPT !.p = a.n, !.toks = Append(st.toks, TokPrim(a.v)), !.leading = FALSE]
+           \* a size whose byte count exceeds 64 bits may be refused already here (C07)
+           [st EXCEPT !.p = a.n, !.toks = Append(st.toks, TokPrim(a.v)), !.leading = FALSE,
+                      !.mayrej = st.mayrej \/ (e.node = "size" /\ SizeOverflows(a.v))]
      ELSE IF Murky(w) THEN [st EXCEPT !.phase = "unspec"]
      ELSE [st EXCEPT !.phase = "rej", !.err = [why |-> "unknown", w |-> w]]
 
